@@ -15,6 +15,9 @@ def build(ctx):
         "B": {"key_mgr": M.delegation((1,), 1), "ключ": M.delegation((3,), 1), "": M.delegation((0,), 1)},
         "C": {},
         "D": {"key_mgr": M.delegation((1, 2, 3), 2), "Key_mgr": M.delegation((0,), 1), "key_mgr ": M.delegation((0,), 1)},
+        # thresholds the listed keys cannot reach, an empty key list, integral-float and bool thresholds
+        "E": {"key_mgr": M.delegation((1,), 2), "pkg_mgr": M.delegation((1, 2), 3), "root": M.delegation((), 1)},
+        "F": {"key_mgr": M.delegation((1, 2), True), "pkg_mgr": M.delegation((2, 3), 2.0), "root": M.delegation((0, 1, 2, 3), 4)},
     }
     names = ["key_mgr", "root", "pkg_mgr", "Key_mgr", "key_mgr ", "", "ключ", "nope", 5, None, b"key_mgr"]
     for rn, dl in roles.items():
